@@ -5,6 +5,7 @@ pub mod driver;
 pub mod model;
 pub mod net;
 pub mod props;
+pub mod tcbsim;
 
 use rand::{rngs::SmallRng, Rng, SeedableRng};
 use serde_json::{json, Value};
